@@ -324,6 +324,9 @@ func FunctionMap() map[string]physical.FunctionDetails {
 					OutputType:    octosql.Int,
 					Strict:        true,
 					Function: func(values []octosql.Value) (octosql.Value, error) {
+						if values[1].Int == 0 {
+							return octosql.Value{}, fmt.Errorf("division by zero")
+						}
 						return octosql.NewInt(values[0].Int / values[1].Int), nil
 					},
 				},
@@ -340,6 +343,9 @@ func FunctionMap() map[string]physical.FunctionDetails {
 					OutputType:    octosql.Duration,
 					Strict:        true,
 					Function: func(values []octosql.Value) (octosql.Value, error) {
+						if values[1].Int == 0 {
+							return octosql.Value{}, fmt.Errorf("division by zero")
+						}
 						return octosql.NewDuration(values[0].Duration / time.Duration(values[1].Int)), nil
 					},
 				},
